@@ -146,7 +146,21 @@ Definition c_spans (rows cols : span) (rows_first : bool) : program :=
   (match cols with None => [I2 OC_MOVEQ PNone (PReg R_FIRST_COLUMN); I2 OC_MOVEQ PNone (PReg R_LAST_COLUMN)] | _ => [] end).
 
 Definition jump (c : jumpcond) (off : Z) : instr := I2 OC_JUMP (PJump c) (PInt off).
-Definition len (p : program) : Z := zlength p.
+(* CodeGen.current_offset: routine bodies are moved out of line by the loader, so they do
+   not count for the relative branches in the code around them *)
+Fixpoint rlen_go (p : program) (cur : option param) (acc : Z) : Z :=
+  match p with
+  | [] => acc
+  | i :: r =>
+      match cur with
+      | Some name => rlen_go r (if is_end_of name i then None else cur) acc
+      | None => match i_op i with
+                | OC_ROUTINE => rlen_go r (Some (i_p0 i)) acc
+                | _ => rlen_go r None (acc + 1)
+                end
+      end
+  end.
+Definition len (p : program) : Z := rlen_go p None 0.
 
 (* code_gen.test_op *)
 Definition test_op (op : operator) (a b : param) : program :=
